@@ -34,12 +34,32 @@ def mc_case(draw, sub, tier="quick"):
     n = draw(st.sampled_from([24, 40, 64, 100, 160] if sub != "enum" else [6, 8, 10]))
     base1, base2 = sc["r1"], sc["r2"]
     r1, r2 = [], []
+    vary = draw(st.booleans())
+    if vary and (sc["ad1"] or sc["ad2"]):
+        sc["glob"]["e"] = draw(st.sampled_from([0.2, 0.34]))  # inexact occurrences must be within reach
+
+    def variant(seq, qual, i):
+        # every third copy gets one edit (substitution, deletion or insertion in turn) near one of its ends, where
+        # the adapters are: exact and inexact adapter occurrences alternate, and a read's predecessor inside its
+        # worker differs from its predecessor in the file
+        if not vary or i % 3 != 2 or not seq:
+            return seq, qual
+        w = min(len(seq), 10)
+        p = (i * 7) % w if (i // 3) % 2 == 0 else len(seq) - 1 - (i * 7) % w
+        c = "ACGT"[(i // 3) % 4]
+        kind = (i // 9) % 3
+        if kind == 0:
+            return seq[:p] + c + seq[p + 1:], qual
+        if kind == 1 and len(seq) > 1:
+            return seq[:p] + seq[p + 1:], (None if qual is None else qual[:p] + qual[p + 1:])
+        return seq[:p] + c + seq[p:], (None if qual is None else qual[:p] + "5" + qual[p:])
+
     for i in range(n):
         a = base1[i % len(base1)]
-        r1.append([f"r{i}x" + a[0][a[0].index("x") + 1:], a[1], a[2]])
+        r1.append([f"r{i}x" + a[0][a[0].index("x") + 1:], *variant(a[1], a[2], i)])
         if base2 is not None:
             b = base2[i % len(base2)]
-            r2.append([f"r{i}x" + b[0][b[0].index("x") + 1:], b[1], b[2]])
+            r2.append([f"r{i}x" + b[0][b[0].index("x") + 1:], *variant(b[1], b[2], i + 1)])
     sc["r1"], sc["r2"] = r1, (r2 if base2 is not None else None)
     if (sc["ad1"] or sc["ad2"]) and not sc["o"].get("pair_adapters") and draw(st.integers(0, 2)) == 0:
         # orientation decisions and their counters are merged from the workers as well
@@ -57,7 +77,8 @@ def mc_case(draw, sub, tier="quick"):
                                             ["--info-file", "info.tsv", "--rest-file", "rest.txt"]]))
     recsize = max(len(x[0]) + 2 * len(x[1]) + 7 for x in r1 + (r2 or []))
     total = sum(len(x[0]) + 2 * len(x[1]) + 7 for x in r1)
-    chunks = draw(st.sampled_from([1, 2, 3, 4, 6, 10, 20, 30] if sub != "enum" else [2, 3]))
+    chunks = draw(st.sampled_from(([1, 2, 3, 4, 6, 10, 20, 30] if not vary else [4, 6, 10, 20, 30, 40])
+                                  if sub != "enum" else [2, 3]))
     sc["buffer"] = max(2 * recsize + 16 + (recsize if sc["paired"] and sc["out"].get("interleaved_in") else 0),
                        total // chunks + 1)
     sc["workers"] = draw(st.sampled_from([2, 2, 3, 4, 5] if sub != "enum" else [2]))
